@@ -481,6 +481,8 @@ Section Machine.
   (* ---- third pass *)
   Variable own : list gent.      (* the first-pass GlobalMaps of this file *)
   Variable ws : list name.       (* AnalysisThird.GlobalVarMaps: every file's global names *)
+  Variable oth : list name.      (* definedInOtherFile (fixes/C07-later-elsewhere.diff): the global names of the OTHER files
+                                    (first-pass tables); [] = the code before that repair, which did not ask *)
 
   (* findNameStr -> findGlobalVar, third term *)
   Definition step_diag3 (a : action) (st : stack) (sofar : list name) : list diag :=
@@ -493,7 +495,7 @@ Section Machine.
         else if (flv =? 0)%N then
           if name_mem n sofar then []
           else match ghead n own with
-               | Some (_, _, hl) => if circ && (sl l =? sl hl)%Z then [] else [(3%N, l)]
+               | Some (_, _, hl) => if circ && (sl l =? sl hl)%Z then [] else if name_mem n oth then [] else [(3%N, l)]
                | None => if name_mem n ws then [] else [(2%N, l)]
                end
         else match ghead n own with
@@ -664,14 +666,15 @@ Section Pipeline.
   Definition first_pass (b : block) : st1 := run1 true c (trace b).
   Definition gnames (gm : list gent) : list name := map fst gm.
 
-  (* diagnostics of one file given the first-pass global tables of all files *)
-  Definition go_diags (b : block) (all : list name) : list diag :=
+  (* diagnostics of one file given the first-pass global tables of all files (all = every file's global names, others =
+     those of the other files) *)
+  Definition go_diags (b : block) (all others : list name) : list diag :=
     let p1 := first_pass b in
-    s1_diags p1 ++ s3_diags (run3 true c (s1_gmap p1) all (trace b)).
-  (* the same for a variant of the code *)
-  Definition go_diags_fx (fx : Scope.bfixes) (b : block) (all : list name) : list diag :=
+    s1_diags p1 ++ s3_diags (run3 true c (s1_gmap p1) all others (trace b)).
+  (* the same for a variant of the code (before fixes/C07-later-elsewhere.diff the other files were not asked) *)
+  Definition go_diags_fx (fx : Scope.bfixes) (b : block) (all others : list name) : list diag :=
     let p1 := run1 true c (trace_fx fx b) in
-    s1_diags p1 ++ s3_diags (run3 true c (s1_gmap p1) all (trace_fx fx b)).
+    s1_diags p1 ++ s3_diags (run3 true c (s1_gmap p1) all (if Scope.bf_later_else fx then others else []) (trace_fx fx b)).
 
   (* what the property demands for the same file; `others` = global names of the other files *)
   Definition supp_locs (b : block) : list loc :=
@@ -687,8 +690,9 @@ Section Pipeline.
 
   Definition pos_clean (b : block) : bool := clean_run true (trace b) [].
 
-  (* class: a top-level read of a global that this file defines only later while another file defines it too
-     (the code reports type 3, the property's "only definition" reading expects nothing) *)
+  (* class (REPAIRED, fixes/C07-later-elsewhere.diff; the predicate describes the code before it): a top-level read of a
+     global that this file defines only later while another file defines it too (the code reported type 3, the
+     property's "only definition" reading expects nothing) *)
   Fixpoint le_scan (own others sofar : list name) (os : list occ) : bool :=
     match os with
     | [] => false
